@@ -178,6 +178,12 @@ def reject_body(case):
                                                                        excluded=np.nonzero(excluded)[0].tolist()[:8], bad=np.nonzero(newbad)[0].tolist()[:8], n=n))
         check(not extra.any(), 'reject:good-point-rejected', lambda: dict(index=np.nonzero(extra)[0].tolist()[:6], grow=case['grow'], sticky=case['sticky'],
                                                                          lims=lims, wkind=case['wkind']))
+        # "neighbours of every rejected point": either the points found beyond the limits in this call (what the routine does, as the IDL original),
+        # or also the points that were excluded on entry - but one reading throughout, not neighbours of some excluded points only
+        reading_b = dilate(excluded | bad, case['grow'])
+        check(bool(np.array_equal(rej, must)) or bool(np.array_equal(rej, reading_b)), 'reject:neighbours-of-some-excluded-points-only',
+              lambda: dict(rejected=np.nonzero(rej)[0].tolist()[:12], reading_a=np.nonzero(must)[0].tolist()[:12], reading_b=np.nonzero(reading_b)[0].tolist()[:12],
+                           grow=case['grow'], sticky=case['sticky']))
         base = np.ones(n, dtype=bool) if prev is None else prev
         want_done = bool(np.array_equal(~rej, base))
         check(isinstance(qdone, (bool, np.bool_)) and bool(qdone) == want_done, 'reject:qdone-wrong', lambda: dict(got=repr(qdone), want=want_done))
